@@ -68,8 +68,12 @@ Bind(toks, doc, env) == [i \in 1..Len(toks) |->
                            ELSE IF toks[i].t = "sub" THEN [t |-> "sub", e |-> Bind(toks[i].e, doc, env)]
                            ELSE toks[i]]
 \* the generator only emits expressions whose admissible set is a single judged value
-ExprValue(toks, doc, env) == LET A == Admissible(Bind(toks, doc, env)) IN IF Cardinality(A) = 1 THEN CHOOSE x \in A : TRUE ELSE Unjudged
+\* (an expression that meets the recorded C04 finding - negative base ^ negative even exponent - is left to C04: not judged here)
+ExprValue(toks, doc, env) == LET b == Bind(toks, doc, env)  A == Admissible(b) IN
+                             IF Cardinality(A) = 1 /\ AdmissiblePinned(b) = A THEN CHOOSE x \in A : TRUE ELSE Unjudged
 Truth(v) == v.t = "num" /\ v.n > 0
+RECURSIVE HasMul(_)
+HasMul(toks) == \E i \in 1..Len(toks) : IF i % 2 = 0 THEN toks[i] \in {"*", "/", "%", "^"} ELSE (toks[i].t = "sub" /\ HasMul(toks[i].e))
 
 \* ---- GroupBy and Sort on documents with unit-string keys
 GroupName(v) == LET t == ScalarText(v) IN t.s
@@ -133,6 +137,7 @@ RenderNode(n, doc, env) ==
       [] n.t = "raw" -> VarText(n, doc, env, FALSE)
       [] n.t = "math" -> LET v == ExprValue(n.e, doc, env) IN
                          IF v.t = "unjudged" \/ (v.t = "num" /\ (IF v.n < 0 THEN 0 - v.n ELSE v.n) % 4 # 0) THEN <<-999>>      \* marker: not judged
+                         ELSE IF v.t = "num" /\ v.n = 0 /\ HasMul(n.e) THEN <<-999>>     \* a real zero may be printed "0" or "-0" (0 / -2): the sign of zero is not specified
                          ELSE IF v.t = "num" THEN QuarterText(v.n) ELSE n.src
       [] n.t = "svar" -> LET d == Resolve(n.p, doc, env) IN
                          IF IsDoc(d) /\ d.t = "S" THEN Phrase(d.s, 1, 1, n, doc, env) ELSE n.src
